@@ -14,7 +14,10 @@ import (
 	"github.com/awslabs/operatorpkg/status"
 	corev1 "k8s.io/api/core/v1"
 	"k8s.io/apimachinery/pkg/api/resource"
+	policyv1 "k8s.io/api/policy/v1"
+	apierrors "k8s.io/apimachinery/pkg/api/errors"
 	metav1 "k8s.io/apimachinery/pkg/apis/meta/v1"
+	"k8s.io/apimachinery/pkg/util/intstr"
 	"k8s.io/apimachinery/pkg/types"
 	clock "k8s.io/utils/clock/testing"
 	"sigs.k8s.io/controller-runtime/pkg/client"
@@ -27,6 +30,7 @@ import (
 	"sigs.k8s.io/karpenter/pkg/controllers/dynamicresources/deviceallocation"
 	"sigs.k8s.io/karpenter/pkg/controllers/provisioning"
 	"sigs.k8s.io/karpenter/pkg/controllers/state"
+	"sigs.k8s.io/karpenter/pkg/events"
 	"sigs.k8s.io/karpenter/pkg/operator/options"
 	"sigs.k8s.io/karpenter/pkg/scheduling"
 	"sigs.k8s.io/karpenter/pkg/state/virtualpods"
@@ -44,6 +48,10 @@ type offSpec struct {
 	Price int64  `json:"price"` // units of 2^-10
 	Avail bool   `json:"avail"`
 	Cap   int    `json:"cap,omitempty"`
+	// Overlay is a NodeOverlay price adjustment applied to the offering (Offering.ApplyPriceOverlay): "2.5", "+0.25",
+	// "-0.125", "+50%", "-100%"; Price is the price before the overlay.
+	Overlay string `json:"overlay,omitempty"`
+	CPUOver int    `json:"cpu_override,omitempty"` // Offering.CapacityOverride{cpu}
 }
 
 type itSpec struct {
@@ -59,6 +67,13 @@ type poolSpec struct {
 	CTNot  bool     `json:"ct_notin,omitempty"`
 	MinKey string   `json:"min_key,omitempty"` // "it" | "fam": minValues on the instance-type / family requirement
 	MinVal int      `json:"min_val,omitempty"`
+	Policy string   `json:"policy,omitempty"`             // "" = WhenEmptyOrUnderutilized | WhenEmpty | Balanced
+	Never  bool     `json:"consolidate_never,omitempty"`  // consolidateAfter: Never
+	After  string   `json:"consolidate_after,omitempty"`  // consolidateAfter (default 0s)
+	Static bool     `json:"static,omitempty"`             // spec.replicas set
+	Taint  bool     `json:"taint,omitempty"`              // template taint verif.io/taint:NoSchedule
+	ITErr  string   `json:"instance_types,omitempty"`     // provider answer for this pool: "" | error | unevaluated | empty
+	Budget *int     `json:"budget,omitempty"`             // entry of the mapping handed to ComputeCommands (nil = plenty)
 }
 
 type podSpec struct {
@@ -69,6 +84,11 @@ type podSpec struct {
 	Zone string `json:"sel_zone,omitempty"`
 	CT   string `json:"sel_ct,omitempty"`
 	Pin  bool   `json:"pinned,omitempty"` // selects a label only its own node carries
+	DND  bool   `json:"do_not_disrupt,omitempty"`
+	PDB  bool   `json:"pdb_blocked,omitempty"` // carries the label a maxUnavailable=0 PDB selects
+	Tol  bool   `json:"tolerates_taint,omitempty"`
+	DS   bool   `json:"daemonset_owned,omitempty"`
+	Done bool   `json:"succeeded,omitempty"` // phase Succeeded: not reschedulable
 }
 
 type nodeSpec struct {
@@ -83,12 +103,17 @@ type nodeSpec struct {
 	Init    bool      `json:"initialized"`
 	Protect bool      `json:"do_not_disrupt,omitempty"`
 	Marked  bool      `json:"marked_for_deletion,omitempty"`
+	NoCT    bool      `json:"no_capacity_type_label,omitempty"`
+	NoZone  bool      `json:"no_zone_label,omitempty"`
+	Ghost   bool      `json:"unknown_instance_type,omitempty"` // instance-type label names a type the provider does not list
+	NotCons bool      `json:"not_consolidatable,omitempty"`    // Consolidatable condition not true
 }
 
 type worldSpec struct {
 	S2S        bool       `json:"spot_to_spot"`
 	Reserved   bool       `json:"reserved_capacity_gate"`
 	BestEffort bool       `json:"min_values_best_effort,omitempty"`
+	IgnorePref bool       `json:"preference_policy_ignore,omitempty"`
 	Catalog    []itSpec   `json:"catalog"`
 	Pools      []poolSpec `json:"pools"`
 	Nodes      []nodeSpec `json:"nodes"`
@@ -107,6 +132,8 @@ type world struct {
 	queue    *disruption.Queue
 	its      map[string]*cloudprovider.InstanceType
 	podIDs   map[string]int
+	fail     string // fault plan: listing this kind ("pdb" | "pods" | "nodepools") fails with a server error
+	onList   func(kind string) // event hook: called before every List of that kind (to place an event between two steps)
 	objs     []client.Object
 	deliver  []func() // deliveries to the cluster state, in order, once the client exists
 }
@@ -118,7 +145,14 @@ func mkOffering(o offSpec) *cloudprovider.Offering {
 	if o.RID != "" {
 		lbl[cloudprovider.ReservationIDLabel] = o.RID
 	}
-	return &cloudprovider.Offering{Requirements: scheduling.NewLabelRequirements(lbl), Price: price(o.Price), Available: o.Avail, ReservationCapacity: o.Cap}
+	of := &cloudprovider.Offering{Requirements: scheduling.NewLabelRequirements(lbl), Price: price(o.Price), Available: o.Avail, ReservationCapacity: o.Cap}
+	if o.Overlay != "" {
+		of.ApplyPriceOverlay(o.Overlay)
+	}
+	if o.CPUOver != 0 {
+		of.CapacityOverride = corev1.ResourceList{corev1.ResourceCPU: resource.MustParse(fmt.Sprint(o.CPUOver))}
+	}
+	return of
 }
 
 func mkInstanceType(s itSpec) *cloudprovider.InstanceType {
@@ -142,7 +176,11 @@ func newWorld(spec *worldSpec) *world {
 	if spec.BestEffort {
 		mv = options.MinValuesPolicyBestEffort
 	}
-	opts := test.Options(test.OptionsFields{MinValuesPolicy: &mv,
+	pp := options.PreferencePolicyRespect
+	if spec.IgnorePref {
+		pp = options.PreferencePolicyIgnore
+	}
+	opts := test.Options(test.OptionsFields{MinValuesPolicy: &mv, PreferencePolicy: &pp,
 		FeatureGates: test.FeatureGates{SpotToSpotConsolidation: &spec.S2S, ReservedCapacity: &spec.Reserved}})
 	w := &world{spec: spec, ctx: options.ToContext(context.Background(), opts), clk: clock.NewFakeClock(time.Unix(1700000000, 0)), cp: fake.NewCloudProvider(),
 		recorder: test.NewEventRecorder(), its: map[string]*cloudprovider.InstanceType{}, podIDs: map[string]int{}}
@@ -169,7 +207,35 @@ func newWorld(spec *worldSpec) *world {
 			}
 		})
 	}
-	w.c = kit.NewClient(interceptor.Funcs{}, w.objs...)
+	hasPDB := false
+	for _, n := range spec.Nodes {
+		for _, p := range n.Pods {
+			hasPDB = hasPDB || p.PDB
+		}
+	}
+	if hasPDB {
+		zero := intstr.FromInt32(0)
+		w.objs = append(w.objs, test.PodDisruptionBudget(test.PDBOptions{ObjectMeta: metav1.ObjectMeta{Name: "block", Namespace: "default"},
+			Labels: map[string]string{"verif.io/pdb": "x"}, MaxUnavailable: &zero}))
+	}
+	w.c = kit.NewClient(interceptor.Funcs{List: func(ctx context.Context, cl client.WithWatch, list client.ObjectList, opts ...client.ListOption) error {
+		kind := ""
+		switch list.(type) {
+		case *policyv1.PodDisruptionBudgetList:
+			kind = "pdb"
+		case *corev1.PodList:
+			kind = "pods"
+		case *v1.NodePoolList:
+			kind = "nodepools"
+		}
+		if kind != "" && w.onList != nil {
+			w.onList(kind)
+		}
+		if kind != "" && kind == w.fail {
+			return apierrors.NewInternalError(fmt.Errorf("injected"))
+		}
+		return cl.List(ctx, list, opts...)
+	}}, w.objs...)
 	w.cluster = state.NewCluster(w.clk, w.c, w.cp)
 	w.prov = provisioning.NewProvisioner(w.c, w.recorder, w.cp, w.cluster, w.clk, deviceallocation.NewController(w.c), virtualpods.NewVirtualPodCache(w.c))
 	w.queue = disruption.NewQueue(w.c, w.recorder, w.cluster, w.clk, w.prov)
@@ -183,6 +249,29 @@ func (w *world) addPool(p poolSpec) {
 	np := test.NodePool(v1.NodePool{ObjectMeta: metav1.ObjectMeta{Name: p.Name}})
 	np.Spec.Disruption.ConsolidateAfter = v1.MustParseNillableDuration("0s")
 	np.Spec.Disruption.ConsolidationPolicy = v1.ConsolidationPolicyWhenEmptyOrUnderutilized
+	if p.Policy != "" {
+		np.Spec.Disruption.ConsolidationPolicy = v1.ConsolidationPolicy(p.Policy)
+	}
+	if p.After != "" {
+		np.Spec.Disruption.ConsolidateAfter = v1.MustParseNillableDuration(p.After)
+	}
+	if p.Never {
+		np.Spec.Disruption.ConsolidateAfter = v1.MustParseNillableDuration("Never")
+	}
+	if p.Static {
+		np.Spec.Replicas = ptr(int64(2))
+	}
+	if p.Taint {
+		np.Spec.Template.Spec.Taints = []corev1.Taint{{Key: "verif.io/taint", Value: "x", Effect: corev1.TaintEffectNoSchedule}}
+	}
+	switch p.ITErr {
+	case "error":
+		w.cp.ErrorsForNodePool = map[string]error{p.Name: fmt.Errorf("injected provider error")}
+	case "unevaluated":
+		w.cp.ErrorsForNodePool = map[string]error{p.Name: cloudprovider.NewUnevaluatedNodePoolError(p.Name)}
+	case "empty":
+		w.cp.InstanceTypesForNodePool = map[string][]*cloudprovider.InstanceType{p.Name: {}}
+	}
 	np.Spec.Disruption.Budgets = []v1.Budget{{Nodes: "100%"}}
 	var reqs []v1.NodeSelectorRequirementWithMinValues
 	if p.CT != nil {
@@ -225,15 +314,33 @@ func (w *world) mkPod(p podSpec, node string, pinValue string) *corev1.Pod {
 	if p.Del != nil {
 		ann[corev1.PodDeletionCost] = fmt.Sprint(*p.Del)
 	}
+	if p.DND {
+		ann[v1.DoNotDisruptAnnotationKey] = "true"
+	}
+	lbls := map[string]string{}
+	if p.PDB {
+		lbls["verif.io/pdb"] = "x"
+	}
+	var tols []corev1.Toleration
+	if p.Tol {
+		tols = []corev1.Toleration{{Key: "verif.io/taint", Operator: corev1.TolerationOpExists}}
+	}
 	pod := test.Pod(test.PodOptions{
 		NodeSelector: sel,
-		ObjectMeta: metav1.ObjectMeta{Name: p.Name, Namespace: "default", Annotations: ann, UID: types.UID("uid-" + p.Name), // the fake client assigns no UIDs; the scheduler keys its pod cache and queue by UID
+		Tolerations:  tols,
+		ObjectMeta: metav1.ObjectMeta{Name: p.Name, Namespace: "default", Annotations: ann, Labels: lbls, UID: types.UID("uid-" + p.Name), // the fake client assigns no UIDs; the scheduler keys its pod cache and queue by UID
 			OwnerReferences: []metav1.OwnerReference{{APIVersion: "apps/v1", Kind: "ReplicaSet", Name: "rs", UID: "rs-uid", Controller: ptr(true), BlockOwnerDeletion: ptr(true)}}},
 		NodeName:             node,
 		ResourceRequirements: corev1.ResourceRequirements{Requests: corev1.ResourceList{corev1.ResourceCPU: resource.MustParse(fmt.Sprintf("%dm", p.CPUm))}},
 		Phase:                corev1.PodRunning,
 	})
 	pod.Spec.Priority = p.Prio
+	if p.DS {
+		pod.OwnerReferences = []metav1.OwnerReference{{APIVersion: "apps/v1", Kind: "DaemonSet", Name: "ds", UID: "ds-uid", Controller: ptr(true), BlockOwnerDeletion: ptr(true)}}
+	}
+	if p.Done {
+		pod.Status.Phase = corev1.PodSucceeded
+	}
 	if _, ok := w.podIDs[p.Name]; !ok {
 		w.podIDs[p.Name] = len(w.podIDs)
 	}
@@ -257,6 +364,15 @@ func (w *world) addNode(n nodeSpec) {
 	if n.RID != "" {
 		labels[cloudprovider.ReservationIDLabel] = n.RID
 	}
+	if n.NoCT {
+		delete(labels, v1.CapacityTypeLabelKey)
+	}
+	if n.NoZone {
+		delete(labels, corev1.LabelTopologyZone)
+	}
+	if n.Ghost {
+		labels[corev1.LabelInstanceTypeStable] = "ghost-type"
+	}
 	alloc := corev1.ResourceList{corev1.ResourceCPU: resource.MustParse(fmt.Sprint(n.CPU)), corev1.ResourceMemory: resource.MustParse("64Gi"), corev1.ResourcePods: resource.MustParse("100")}
 	nc := test.NodeClaim(v1.NodeClaim{
 		ObjectMeta: metav1.ObjectMeta{Name: n.Name, Labels: labels, Finalizers: []string{"karpenter.sh/test-finalizer"}},
@@ -268,7 +384,9 @@ func (w *world) addNode(n nodeSpec) {
 	if n.Init {
 		cs.SetTrue(v1.ConditionTypeInitialized)
 	}
-	cs.SetTrue(v1.ConditionTypeConsolidatable)
+	if !n.NotCons {
+		cs.SetTrue(v1.ConditionTypeConsolidatable)
+	}
 	w.objs = append(w.objs, nc)
 	w.deliver = append(w.deliver, func() { w.cluster.UpdateNodeClaim(nc) })
 
@@ -336,4 +454,28 @@ func (w *world) rebuildCatalog(mod func(*itSpec)) {
 		w.its[c.Name] = it
 		w.cp.InstanceTypes = append(w.cp.InstanceTypes, it)
 	}
+}
+
+// addNodeLive adds a node to a world that is already running (API objects first, then the informer deliveries).
+func (w *world) addNodeLive(n nodeSpec) {
+	i0, j0 := len(w.objs), len(w.deliver)
+	w.addNode(n)
+	for _, o := range w.objs[i0:] {
+		kit.Apply(w.ctx, w.c, o)
+	}
+	for _, f := range w.deliver[j0:] {
+		f()
+	}
+}
+
+// steppingRecorder lets time pass while the single-node loop works: publishing an event costs minutes.
+type steppingRecorder struct {
+	*test.EventRecorder
+	clk  *clock.FakeClock
+	step time.Duration
+}
+
+func (s *steppingRecorder) Publish(evts ...events.Event) {
+	s.EventRecorder.Publish(evts...)
+	s.clk.Step(s.step)
 }
